@@ -16,7 +16,7 @@ set_option linter.unusedSectionVars false
 variable {α : Type} [DecidableEq α]
 
 /-- a merge of odd arity is non-empty, so the value type is inhabited -/
-private theorem default_of_odd (vs : List α) (h : vs.length % 2 = 1) : Nonempty α := by
+theorem default_of_odd (vs : List α) (h : vs.length % 2 = 1) : Nonempty α := by
   cases vs with
   | nil => simp at h
   | cons x _ => exact ⟨x⟩
